@@ -21,7 +21,7 @@ by the thread running _start, reads the value and then waits for the callback
 thread to reset the attribute before returning the value it read.  Nothing else
 is changed; all the code that runs is joblib's.
 """
-import os, sys; ROOT = os.environ.get("JOBLIB_ROOT", "/tmp/wt_t1"); sys.path.insert(0, ROOT); os.environ["PYTHONPATH"] = ROOT + os.pathsep + os.environ.get("PYTHONPATH", "")
+import os, sys; ROOT = os.environ.get("JOBLIB_ROOT", "/repo"); sys.path.insert(0, ROOT); os.environ["PYTHONPATH"] = ROOT + os.pathsep + os.environ.get("PYTHONPATH", "")
 import threading
 
 import joblib
